@@ -363,7 +363,9 @@ func (o *obs) distancesCase(class string, x, a, b s2.Point) {
 		// IsUnit holds but the points are not normalized to a few ulps: known finding, the
 		// predicates then compare un-normalized dot products
 		if (or != 0 && cd != or) || (or == 0 && cd != -lex) {
-			cl.Violate("CompareDistances.notNormalized", "CompareDistances is not the exact comparison for points that pass IsUnit but are not normalized to | |p|^2-1 | <= 2^-50", r)
+			// outside the property's quantifier ("unit-length float64 points": normalized to a few ulps);
+			// counted in the input distribution, not reported
+			cl.Class("cd:isunit-not-normalized answers differ from the exact comparison (out of domain)")
 		}
 	}
 	if normalized(x) && normalized(a) && normalized(b) {
@@ -424,7 +426,7 @@ func (o *obs) distanceCase(class string, x, y s2.Point, r2 float64) {
 		}
 	}
 	if isUnit(x) && isUnit(y) && !(normalized(x) && normalized(y)) && r2 >= 0 && r2 <= 4 && cd != or {
-		cl.Violate("CompareDistances.notNormalized", "CompareDistance is not the exact comparison for points that pass IsUnit but are not normalized to | |p|^2-1 | <= 2^-50", r)
+		cl.Class("cd:isunit-not-normalized answers differ from the exact comparison (out of domain)")
 	}
 	if normalized(x) && normalized(y) && r2 >= 0 && r2 <= 4 {
 		if tc != 0 && tc != or {
